@@ -20,7 +20,7 @@ ASSUMPTIONS = ["real memory safety of the C process cannot be exhibited by the m
 
 def gen_steps(rng, keys, source):
     steps = []
-    iters = ["next"] if source.startswith("iter") else ["index", "index", "len"]
+    iters = ["next"] if source.startswith("iter") else ["index", "index", "len", "bool", "list"]
     n_it = rng.randint(1, 4)
     n_mut = rng.randint(1, 4)
     plan = ["it"] * n_it + ["mut"] * n_mut
@@ -53,14 +53,24 @@ def run(ctx):
         fn = rng.choice(["II", "OO", "IO", "LL", "fs", "OI", "IF"])
         kind = rng.choice(["BTree", "TreeSet", "Bucket", "Set", "BTree", "TreeSet"])
         impl = rng.choice(["C", "C", "Py"])
-        n = rng.choice([0, 1, 2, 3, 4, 6, 9])
+        n = rng.choice([0, 1, 2, 3, 4, 6, 9, 14])
         keys = sorted(rng.sample(range(0, 30, 1), n))
-        source = rng.choice(["iter", "iteritems", "iterkeys-range", "keys", "items", "values"])
-        if kind in ("Bucket", "Set") and source in ("keys", "items", "values"):
+        source = rng.choice(["iter", "iteritems", "iterkeys-range", "keys", "items", "values", "keys-range", "items-range"])
+        if kind in ("Bucket", "Set") and source in ("keys", "items", "values", "keys-range", "items-range"):
             source = "iter"          # leaf containers return plain lists
         steps = gen_steps(rng, keys, source)
-        jobs.append({"id": len(jobs), "family": fn, "kind": kind, "impl": impl, "keys": keys, "sizes": rng.choice([[2, 2], [1, 2], [3, 3], [2, 3]]),
-                     "source": source, "steps": steps})
+        rg = sorted(rng.sample(range(len(keys)), 2)) if len(keys) >= 2 else [0, 0]
+        if len(keys) >= 3 and rng.random() < 0.6:
+            rg[1] = min(len(keys) - 1, rg[0] + rng.randint(1, 2))      # short ranges: start deep inside a leaf, end in the next
+        if source.endswith("-range") and keys and rng.random() < 0.5:
+            # empty the part of the leaf the sequence starts in: delete the range's first key and the keys below it
+            dels = [["del", keys[i]] for i in range(rg[0], max(-1, rg[0] - rng.randint(2, 5)), -1)]
+            steps = [[rng.choice(["len", "index", "bool"])] if False else ["len"]] + dels + [[rng.choice(["len", "bool", "list"])], ["index", rng.randint(-3, 3)]]
+        order = list(keys)
+        if rng.random() < 0.5:
+            rng.shuffle(order)          # leaves filled to different degrees
+        jobs.append({"id": len(jobs), "family": fn, "kind": kind, "impl": impl, "keys": keys, "sizes": rng.choice([[2, 2], [1, 2], [3, 3], [2, 3], [4, 4], [6, 3]]),
+                     "source": source, "steps": steps, "range": rg, "order": order})
     child = os.path.join(os.path.dirname(os.path.dirname(os.path.abspath(__file__))), "c15_child.py")
     env = dict(os.environ, MALLOC_CHECK_="3", MALLOC_PERTURB_="90")
 
